@@ -62,6 +62,16 @@ class OArr(_np.ndarray):
     """object ndarray whose clip() can be intercepted by a harness (numpy's
     own clip on symbolic entries would fork on every element)"""
 
+    def __array_wrap__(self, arr, context=None, return_scalar=False):
+        # reductions of an object-array subclass come back as 0-d arrays: unwrap them
+        if arr.ndim == 0:
+            return arr[()]
+        return arr.view(OArr) if isinstance(arr, _np.ndarray) else arr
+
+    def sum(self, *a, **k):
+        r = _np.ndarray.sum(self.view(_np.ndarray), *a, **k)
+        return r.view(OArr) if isinstance(r, _np.ndarray) and r.ndim else (r[()] if isinstance(r, _np.ndarray) else r)
+
     def clip(self, a_min=None, a_max=None, *a, **k):
         if CLIP_HOOK[0] is not None:
             return CLIP_HOOK[0](self, a_min, a_max)
